@@ -287,7 +287,8 @@ def init_bounded(sess: Session):
             self._w = words
 
         def words(self):
-            return [type('Word', (), {'pos': p, 'forms': (lambda self_, fs=fs: list(fs))})() for p, fs in self._w]
+            return [type('Word', (), {'pos': p, 'forms': (lambda self_, fs=fs: list(fs)),
+                                      'lemma': (lambda self_, fs=fs: fs[0])})() for p, fs in self._w]
     word_opts = [(p, fs) for p in poses for n in (1, 2, 3) for fs in itertools.permutations(forms_pool, n)]
     for k in (0, 1, 2):
         for words in itertools.combinations(word_opts, k):
@@ -372,7 +373,8 @@ def call_bounded(sess: Session):
             self._w = words
 
         def words(self):
-            return [type('Word', (), {'pos': p, 'forms': (lambda self_, fs=fs: list(fs))})() for p, fs in self._w]
+            return [type('Word', (), {'pos': p, 'forms': (lambda self_, fs=fs: list(fs)),
+                                      'lemma': (lambda self_, fs=fs: fs[0])})() for p, fs in self._w]
     # real Form objects (str subclasses carrying id/script): set and dict look-ups with plain strings must find them
     F = core.Form if hasattr(core, 'Form') else str
     inventory = [('n', ['glass']), ('n', ['miss']), ('a', ['free']), ('v', ['see', 'saw']), ('n', ['ox', 'oxen']),
